@@ -329,12 +329,14 @@ c.raises('CancelledError', 'creates-no-task', lambda c: no_new_task_of(c.pre, c.
 c.raises('CancelledError', 'scheduler-frame', lambda c: sched_frame(c.pre, c.cur, c.a.self))
 c.raises('CancelledError', 'no-cancellation-requested', _tidyx_no_cancel)
 c.raises('CancelledError', 'frame[elems]', lambda c: local_sets_unchanged(c.pre, c.cur, c.a.self))
-c.loop(0, inv=[
+_TIDYX_INV = [
     ('nothing-requested', lambda c: And(c.cur.H('$cancel_req') == c.pre.H('$cancel_req'),
                                         c.cur.H('$cancel_vt') == c.pre.H('$cancel_vt'))),
     ('states-still', lambda c: c.cur.H('_state') == c.pre.H('_state')),
     ('clock-still', lambda c: vt(c.cur) == vt(c.pre)),
-])
+]
+c.loop(0, inv=_TIDYX_INV)      # for task in exception_tasks: task.cancel()
+c.loop(1, inv=_TIDYX_INV)      # for task in exception_tasks: task.exception()
 
 # ---------------------------------------------------------------- E9: co_shutdown of an atomic job (assumed)
 c = contract('AbstractJob.co_shutdown', None, kind='env').param('self').returns('ref')
